@@ -5,6 +5,9 @@ C06 lemma library, aggregated:
   `automatonAccepted_agrees`);
 * `GT.Lemmas.RepAutPairs` — matrix k is the image of word k (`accSpec_pairs`, `accepted_pairs`,
   `automatonAccepted_pairs`);
+* `GT.Lemmas.RepAutStar`  — the same for every representation, the words parsed with the
+  representation's own `parse_simple` (`parseWord_joinW`, `accSpec_pairs_g`, `accepted_pairs_g`,
+  `accepted_pairs_nonsimple`, `labelOKg_of_edgeWords`, `labelOKg_of_validNames`);
 * `GT.Lemmas.RepAutLang`  — the words are the label words of the paths, once per path
   (`accepted_words_start`, `accepted_words_end`, `accepted_eq_enumerate`);
 * `GT.Lemmas.RepAutTotal` — when exceptions are raised (`accSpec_total_start`, `accSpec_keyError`,
@@ -16,9 +19,11 @@ Below: concrete instances showing that the hypotheses of the main theorems are s
 import Mathlib.LinearAlgebra.Matrix.Notation
 import GT.Lemmas.RepAutSpec
 import GT.Lemmas.RepAutPairs
+import GT.Lemmas.RepAutStar
 import GT.Lemmas.RepAutLang
 import GT.Lemmas.RepAutFree
 import GT.Lemmas.RepAutTotal
+import GT.Lemmas.RepAutGuard
 
 namespace GT.RepW
 namespace RepAutExamples
@@ -56,6 +61,37 @@ example : ∃ res memo', r0.accepted a0 2 {} (some 0) [] = .ok (res, memo') ∧
       decide
     rw [h] at this
     exact Option.some.inj this
+
+/-- the exception a result carries, if any -/
+def errOf {α : Type} : M? α → Option Err
+  | .error e => some e
+  | .ok _ => none
+
+/-- `r0` with `parse_simple=False`: words are joined with `"*"` -/
+def r0ns : Rep 2 ℤ := { r0 with parseSimple := false }
+
+example : ((r0ns.accepted a0 2 { withWords := true } (some 0) []).toOption.map (·.1.words)) =
+    some ["", "a", "a*a", "a*b"] := by decide
+example : ((r0ns.accepted a0 2 { withWords := true, asStart := false } (some 0) []).toOption.map
+    (·.1.words)) = some ["", "a*b"] := by decide
+
+/-! `accepted_pairs_g` / `accepted_pairs_nonsimple`: the label hypothesis holds -/
+example : LabelOKg r0ns { withWords := true } := labelOKg_of_edgeWords r0ns _ rfl
+example : LabelOKg r0ns { withWords := true, edgeWords := false } :=
+  labelOKg_of_validNames r0ns _ rfl rfl (by decide)
+example : parseWord false "a*a" = ["a", "a"] := by decide
+
+/-! the guard of a caller-supplied dict: a dict filled by a `maxlen=True` call records its
+options; the same call with `maxlen=False` on that dict is refused, the same options are served -/
+example :
+    let d := (r0.automatonAcceptedD a0 2 true true (some 0) none {} true).2
+    d.options = some (true, true, true, true) ∧ d.memo.length = 2 ∧
+    errOf (r0.automatonAcceptedD a0 2 false true (some 0) none d true).1 = some "ValueError" ∧
+    ((r0.automatonAcceptedD a0 1 true true (some 1) none d true).1.toOption.map (·.words)) =
+      some ["", "a", "b"] := by
+  decide
+example : GuardOK r0 a0 (r0.automatonAcceptedD a0 2 true true (some 0) none {} true).2 :=
+  (precomputed_guard_sound r0 a0 2 true true (some 0) none {} true (guard_empty _ _)).1
 
 /-- why `MemoOK` is a hypothesis: the dict key is `(length, state)` only, so a dict filled by
 a `maxlen=True` call and then passed to a `maxlen=False` call makes the latter return the
